@@ -59,7 +59,8 @@ class SpecGen:
                 return self.esc(a)
             return {k: self.item_spec(v) for k, v in a.items()}
         if isinstance(a, (list, tuple)):
-            return [self.item_spec(v, as_type) for v in a]
+            out = [self.item_spec(v, as_type) for v in a]
+            return tuple(out) if isinstance(a, tuple) else out     # a spec given as a Python structure may hold a tuple: it stays one
         return a
 
     def leaf_key(self, t):
